@@ -286,6 +286,52 @@ def run_case(args):
     return res
 
 
+def _two_runs(workdir, names):
+    """child: the console entry point once per library, one after the other in this interpreter (a setup.py wrapping two libraries)"""
+    import sys
+
+    import shroud.main
+
+    for nm in names:
+        sys.argv = ["shroud", "--outdir", nm, "--logdir", nm, "--cfiles", nm + ".c.list", "--ffiles", nm + ".f.list", nm + ".yaml"]
+        os.chdir(workdir)
+        try:
+            shroud.main.main()
+        except SystemExit as e:  # the console entry point ends with sys.exit(0)
+            if e.code not in (0, None):
+                raise
+    return "done"
+
+
+def two_runs_case(args):
+    """The file lists of a run name the files of that run, also when another library was processed before it in the same interpreter."""
+    workdir, texts = args
+    os.makedirs(workdir)
+    names = sorted(texts)
+    errs = []
+    for order in (names, names[::-1]):
+        for nm in names:
+            shutil.rmtree(os.path.join(workdir, nm), ignore_errors=True)
+            os.makedirs(os.path.join(workdir, nm))
+            with open(os.path.join(workdir, nm + ".yaml"), "w") as fp:
+                fp.write(texts[nm])
+        r = isolate.call_in_child(_two_runs, (workdir, order), timeout=120)
+        if r.status != "ok":
+            errs.append("two runs %s in one interpreter fail: %s %s" % (order, r.exc, (r.msg or "")[:200]))
+            continue
+        for nm in order:
+            files = sorted(os.listdir(os.path.join(workdir, nm)))
+            for lst, kind in (("c.list", "c"), ("f.list", "fortran")):
+                want = sorted(f for f in files if kind_of(f) == kind)
+                listed = open(os.path.join(workdir, nm + "." + lst)).read().split()
+                got = sorted(os.path.basename(x) for x in listed)
+                foreign = sorted(x for x in listed if os.path.basename(os.path.dirname(x)) not in (nm, ""))
+                if got != want or foreign:
+                    errs.append("order %s: %s/%s lists %s%s, %s files written for %s: %s" % (order, nm, lst, got, " (of another run: %s)" % foreign if foreign else "", kind, nm, want))
+    shutil.rmtree(workdir, ignore_errors=True)
+    return errs
+
+
 def expected_dir(kind, dirs):
     spec = {"c": "cf", "fortran": "cf", "python": "py", "lua": "lua", "yaml": "yaml"}.get(kind)
     if spec and dirs.get(spec):
@@ -537,6 +583,12 @@ def run(ctx):
     ctx.part("corpus_toggles", configurations=len(cres), comparisons=ncmp)
     ctx.count(states=len(res) + len(cres), transitions=len(res) + ncmp, validated=len(res) + ncmp)
     ctx.nontrivial_n(len(res) + len(cres))
+    from .. import libs as _libs
+    terrs = two_runs_case((os.path.join(ctx.subdir("two"), "t"), {"alpha": _libs.SMALL_C, "beta": _libs.OTHER_CXX}))
+    ctx.count(states=2, transitions=4, validated=4)
+    for e in terrs:
+        ctx.violation("lists two-runs", e, {"tag": "two-runs"})
+    ctx.part("two_runs_in_one_interpreter", libraries=2, orders=2)
     ctx.part("library_combinations", runs=sum(1 for t in meta if t[0] == "lib"), descriptions=list(DESCS))
     ctx.part("declaration_overrides", runs=sum(1 for t in meta if t[0] == "decl"))
     ctx.part("block_overrides", runs=sum(1 for t in meta if t[0] == "blk"), nesting=3)
